@@ -129,7 +129,14 @@ def run(ctx):
                 bad("unrelated-order-returns", sn, "%s %s %r (%s) returns %r instead of raising TypeError" % (sn, name, o, side, r), [sn, name, repr(o), side])
     # ---- histories: compare, mutate a component, compare again (equality must follow the components)
     hist = 0
-    for a in reps[:3]:
+    mutable = True
+    try:
+        _probe = mk_r((0, 0), (0, 0))
+        _probe.end = P(line=1, character=1)
+        _probe.end.line = 2
+    except Exception:  # noqa: BLE001 - frozen classes: there are no mutation histories to explore
+        mutable = False
+    for a in (reps[:3] if mutable else []):
         for b in reps[:3]:
             r1, r2 = mk_r(a, b), mk_r(a, b)
             steps = [("end", lambda r: setattr(r, "end", P(line=7, character=7))),
@@ -173,7 +180,7 @@ def run(ctx):
         "traces_validated_against_impl": n, "evaluations": n, "distinct_nontrivial": len(coords) ** 2,
         "rule": "grid %s per coordinate: all 25 positions, all 625 ordered pairs x 6 operators vs tuple comparison, trichotomy, transitivity on "
                 "%d triples, 25 ranges and 50 locations pairwise, unrelated/cross-class comparisons on both sides, reprs" % (GRID, len(tri) ** 3),
-        "operator_outcome_classes": {"%s %s" % k: v for k, v in classes.items()},
+        "operator_outcome_classes": {"%s %s" % k: v for k, v in classes.items()}, "mutation_histories_explored": mutable,
         "exhaustive": True,
         "samples": [{"pair": [[0, 1], [1, 0]], "ops": {nm: bool(op(pos[(0, 1)], pos[(1, 0)])) for nm, op in OPS}}],
     }
